@@ -161,6 +161,11 @@ type Conn struct {
 	hdrStatusSeen bool
 	hdrTrailers   bool
 
+	// hdrEndStream records that the HEADERS frame that opened the block carried
+	// END_STREAM: the stream ends when the block does, which is at the
+	// CONTINUATION with END_HEADERS if the block is split.
+	hdrEndStream bool
+
 	// serverS belongs to the read loop once the handshake is over.
 	serverS Settings
 
@@ -931,8 +936,20 @@ func (c *Conn) dispatch(fr *FrameHeader) bool {
 		r.gotHeaders = true
 	}
 
+	// END_STREAM on a HEADERS frame whose block carries on in CONTINUATION
+	// frames takes effect once the block is complete.
+	endStream := fr.Flags().Has(FlagEndStream)
+
+	if fr.Type() == FrameHeaders {
+		c.hdrEndStream = endStream
+	}
+
+	if fr.Type() == FrameHeaders || fr.Type() == FrameContinuation {
+		endStream = c.hdrEndStream && fr.Flags().Has(FlagEndHeaders)
+	}
+
 	if err == nil {
-		if fr.Flags().Has(FlagEndStream) {
+		if endStream {
 			c.finish(r, fr.Stream(), nil)
 		}
 	} else {
